@@ -9,8 +9,10 @@
    Fragment: every primitive whose heap shape does not depend on event values: sinks, constants, map,
    filter, merge, snapshot*, gate, hold, updates, value, map_c, lift2..6, accum, collect, defer, split,
    loops, listeners (strong, weak, Cell::listen), clone/drop of handles, unlisten, collections.
-   Not in the fragment (shape depends on values or on forcing time): once, switch_s, switch_c, router,
-   the *_lazy forms, functions that capture FRP handles.
+   User functions may capture handles (with_keeps). The *_lazy forms have the shape of their strict forms (a Lazy
+   is not a collector object and, without captured handles, its thunk owns no handle).
+   Not in the fragment (shape depends on event values): once, switch_s, switch_c, router, functions whose VALUES
+   are handles; lazies together with captured handles in one program (an unforced thunk shares the user function).
 
    Ghost handles.  Gc.v's contract lets the mutator use only objects it holds a handle on.  The library
    also reaches objects by navigating from a held one (cell -> its updates stream, StreamLoop -> its
